@@ -49,7 +49,7 @@ func (g G) Unif(lo, hi float64) float64 {
 }
 func (g G) Seed() int64 {
 	if g.Chance(1, 8) {
-		return rapid.Int64().Draw(g.t, "s")
+		return rapid.Int64Range(-(1<<53), 1<<53).Draw(g.t, "s")
 	}
 	return int64(rapid.IntRange(0, 1000).Draw(g.t, "s"))
 }
@@ -727,7 +727,17 @@ func (s *genState) genBiases(req M) []interface{} {
 	probe()
 	for i := 0; i < n; i++ {
 		name := g.Pick(names...)
+		save := s.nCrit
 		b := M{"name": name, "props": s.genBiasProps(name, req)}
+		if o.AllowProb && g.Chance(1, 3) {
+			b["applyProbability"] = g.PickF(0, 1, 0.5, g.Unif(0, 1))
+			s.label("applyProbability")
+		}
+		if o.AllowDisable && g.Chance(1, 6) {
+			b["disabled"] = true
+			s.nCrit = save
+			s.label("disabledBias")
+		}
 		out = append(out, b)
 		probe()
 	}
